@@ -322,7 +322,7 @@ def run_scheduled(tdir, argv, script, choices, session='default_run'):
                     if armed[0] == 0:
                         raise OSError('stderr unusable')
             return io.StringIO.write(self, text)
-    out, err = io.StringIO(), _ErrProxy()
+    out, err = S.Capture(), _ErrProxy()
     old_argv = sys.argv
     sys.argv = [os.path.join(tdir, 'pcfg_guesser.py')] + list(argv)
     shim = _ThreadingShim(sc)
